@@ -289,6 +289,9 @@ func TestVerifC35Verify1559(t *testing.T) {
 			fork = "fork-block"
 		}
 		c.Classf("%s %s %s valid=%v", fork, glClass, bfClass, want)
+		if !parentIsLondon && limit >= 1<<62 {
+			c.Classf("fork-block parent gasLimit>=2^62 valid=%v", want) // x2 elasticity adjustment leaves the int64 range
+		}
 		nt := glClass != "gl=random" && glClass != "gl=parent" || !parentIsLondon
 		c.NonTrivial(nt, fmt.Sprintf("%d/%d/%d/%d/%v/%d/%v", london, num, limit, used, parent.BaseFee, header.GasLimit, header.BaseFee))
 		c.Sample(nt, func() any {
